@@ -77,7 +77,10 @@ def gen_cases(tier, seed):
     n = 240 if tier == "quick" else 12000
     cases = []
     for name in TARGETED:
-        for role_seed in range(2 if tier == "quick" else 20):
+        reps = 2 if tier == "quick" else 20
+        if name.startswith("second-abort"):
+            reps *= 3          # a schedule that depends on two user threads meeting: a few more tries on a loaded machine
+        for role_seed in range(reps):
             cases.append({"kind": "targeted", "name": name, "seed": seed, "i": role_seed})
     for i in range(n):
         cases.append({"kind": "random", "role": "acceptor" if i % 5 < 3 else "requestor", "seed": seed, "i": i})
